@@ -6,6 +6,7 @@ import SnapraidVerif.Raid.Spec
 import SnapraidVerif.Codec.Content
 import SnapraidVerif.Codec.Save
 import SnapraidVerif.Array.ScrubPlan
+import SnapraidVerif.Parity.Split
 
 open SnapraidVerif SnapraidVerif.GF SnapraidVerif.Raid SnapraidVerif.Codec
 
@@ -145,6 +146,24 @@ def handle (toks : List String) : String :=
           | r => r
         hex8 (reserialize { p with recs := recs })
     | _, _, _ => "bad-op"
+  | "split-find" :: off :: sizes =>
+    match off.toNat?, sizes.mapM (·.toNat?) with
+    | some off, some sizes => match Split.find sizes off with
+      | some (i, o) => s!"{i} {o}"
+      | none => "none"
+    | _, _ => "bad-op"
+  | "split-chsize" :: bs :: limit :: level :: size :: sps =>
+    let parseSp (t : String) : Option Split.Sp := match t.splitOn "/" with
+      | [a, b] => match a.toNat?, b.toNat? with
+        | some a, some b => some { size := a, fsz := b }
+        | _, _ => none
+      | _ => none
+    match bs.toNat?, limit.toNat?, level.toNat?, size.toNat?, sps.mapM parseSp with
+    | some bs, some limit, some level, some size, some sps =>
+      match Split.chsize bs ((List.range sps.length).map fun s => Split.testLimit limit s level) sps size with
+      | some t => "ok " ++ String.intercalate " " (t.map fun x => s!"{x.size}/{x.fsz}")
+      | none => "fail"
+    | _, _, _, _, _ => "bad-op"
   | "save-accepts" :: ops =>
     let parsed := ops.map fun t =>
       match t.toList with
